@@ -754,6 +754,22 @@ def metamorphic(ctx, M, prepared, tables):
             items.append((S, base, "trivia", tname, groups, None, base_raw))
             for _ in range(6 if thorough else 2):
                 items.append((S, base, "trivia", tname, rng.sample(groups, min(len(groups), rng.randint(1, 3))), None, base_raw))
+        # ---- blanks around the text of <name> elements (template / location names): the reader takes the identifier inside --------
+        for tname, ttext in TRIVIA:
+            if ttext.strip():
+                continue
+            ng, lsc = [], []
+            for b, kind in enumerate(m.bkind):
+                if kind == "name" and m.blocks[b].strip():
+                    es = [[(b, 0, 0, ttext, 0)], [(b, len(m.blocks[b]), len(m.blocks[b]), ttext, 0)]]
+                    if "/instance" in m.bpath[b]:
+                        lsc += es          # the name of an LSC instance line is a text of its own kind
+                    else:
+                        ng += es
+            if ng:
+                items.append((S, base, "trivia", "name-" + tname, ng, None, base_raw))
+            if lsc and tname == "blank":
+                items.append((S, base, "trivia", "lsc-instance-name", lsc, None, base_raw))
         # ---- parentheses ------------------------------------------------------------------------------------------
         pg = gen_paren_edits(S)
         if pg:
@@ -1223,6 +1239,19 @@ def run(ctx):
                      "with_errors": sum(1 for (_, c, _) in prepared if any("ERROR" in d for d in c["diags"])),
                      "expression_spans_valid": sum(len(S.spans) for (S, _, _) in prepared),
                      "expression_spans_reported": sum(S.raw_spans for (S, _, _) in prepared)}
+    # corpus twins: X.paren.xml is X.xml with the parentheses the OPERATOR TABLE makes redundant written out (hand-made, independent of how the
+    # library parses either text): the two must give the same result
+    byname = {S.m.name: (S, c) for (S, c, _) in prepared}
+    ntw = 0
+    for nm, (S2, c2) in sorted(byname.items()):
+        if nm.endswith(".paren.xml") and nm[:-10] + ".xml" in byname:
+            S1, c1 = byname[nm[:-10] + ".xml"]
+            ntw += 1
+            d = differ(c1, c2)
+            if d:
+                ctx.finding("paren-twin:" + nm[:-10], "redundant parentheses (per the operator table) change the result of %s: %s" % (nm[:-10] + ".xml", d),
+                            {"entry": "parse_XML_buffer", "original_b64": b64(S1.m.render()), "rewritten_b64": b64(S2.m.render()), "difference": d})
+    cov["paren_twins"] = ntw
     for (S, c, raw) in prepared:
         if c["crash"]:
             ctx.finding("crash:baseline:" + S.m.name, "the library crashed on an unmodified model", {"model": S.m.name, "out": raw[:20]})
